@@ -1127,12 +1127,16 @@ fn f7(ctx: &mut Ctx) {
 	let quat = mint::Quaternion { v: mint::Vector3 { x: 0.0f32, y: 0.0, z: 0.0 }, s: 1.0 };
 	for path in 0..F7_PATHS.len() {
 		for k in 0..F2_EFFECTS.len() {
-			for adopted in [true, false] {
+			for (adopted, bus) in [(true, false), (false, false), (true, true), (false, true)] {
 				if path == 0 && !adopted {
 					continue;
 				}
+				// bus: the parent is a pure group track (sound_capacity 0); only paths with a parent track
+				if bus && path < 4 {
+					continue;
+				}
 				ctx.evals += 1;
-				let detail = || format!("a track created through {} carrying the effect family '{}' (default parameters), {}; a looping DC sound on it; callbacks of 1, 4 and 9 frames at 8000 Hz, internal buffer 4", F7_PATHS[path], F2_EFFECTS[k], if adopted { "its parent was adopted by the audio thread two callbacks earlier" } else { "its parent was created in the same interval" });
+				let detail = || format!("a track created through {} carrying the effect family '{}' (default parameters), {}; a looping DC sound on it; callbacks of 1, 4 and 9 frames at 8000 Hz, internal buffer 4", F7_PATHS[path], F2_EFFECTS[k], if adopted { "its parent was adopted by the audio thread two callbacks earlier" } else { "its parent was created in the same interval" }.to_string() + if bus { " (the parent is a bus: sound_capacity 0)" } else { "" });
 				let r = catch(|| -> Result<(), String> {
 					let lim = |_| "resource limit".to_string();
 					let main = if path == 0 { f7_fx!(MainTrackBuilder::new(), k) } else { MainTrackBuilder::new() };
@@ -1179,7 +1183,7 @@ fn f7(ctx: &mut Ctx) {
 							keep.push(Box::new(t));
 						}
 						4 | 5 => {
-							let mut par = m.add_sub_track(TrackBuilder::new()).map_err(lim)?;
+							let mut par = m.add_sub_track(if bus { TrackBuilder::new().sound_capacity(0) } else { TrackBuilder::new() }).map_err(lim)?;
 							if !settle(&mut m, ctx) { return Ok(()); }
 							if path == 4 {
 								let mut t = par.add_sub_track(f7_fx!(TrackBuilder::new(), k)).map_err(lim)?;
@@ -1193,7 +1197,7 @@ fn f7(ctx: &mut Ctx) {
 							keep.push(Box::new(par));
 						}
 						_ => {
-							let mut par = m.add_spatial_sub_track(&listener, zero, SpatialTrackBuilder::new()).map_err(lim)?;
+							let mut par = m.add_spatial_sub_track(&listener, zero, if bus { SpatialTrackBuilder::new().sound_capacity(0) } else { SpatialTrackBuilder::new() }).map_err(lim)?;
 							if !settle(&mut m, ctx) { return Ok(()); }
 							if path == 6 {
 								let mut t = par.add_sub_track(f7_fx!(TrackBuilder::new(), k)).map_err(lim)?;
@@ -1228,7 +1232,7 @@ fn f7(ctx: &mut Ctx) {
 					Ok(Err(e)) => ctx.fail(format!("machinery: F7 scene could not be built: {}", e), detail()),
 					Err(p) => ctx.fail(format!("panic on the caller's thread: {} :: F7 {}", p, F7_PATHS[path]), detail()),
 				}
-				ctx.state(hash64(&("f7", path, k, adopted)));
+				ctx.state(hash64(&("f7", path, k, adopted, bus)));
 			}
 		}
 	}
